@@ -358,11 +358,33 @@ def m_l_transfer(it, a):
     # splice [first, last) into its new position
     tmp = ld(this, 8); st(this, 8, ld(last, 8)); st(last, 8, ld(first, 8)); st(first, 8, tmp)
     return None
+def m_s_copy_ctor(it, a):
+    this, o = a; sinit(it, this, []); sset(it, this, sget(it, o)); return None
+def m_s_dtor(it, a): return None
+def m_s_substr(it, a):
+    # sret form: (result, this, pos, n)
+    res, this, pos, n = a; b = sget(it, this)
+    if pos > len(b): raise Thrown(NULL)
+    sinit(it, res, []); sset(it, res, b[pos:pos + n] if n < (1 << 62) else b[pos:]); return None
+def m_s_find_first_not_of(it, a):
+    this, chars, pos, n = a; b = sget(it, this); cs = rd(it, chars, n)
+    for i in range(pos, len(b)):
+        if is_sym(b[i]) or any(is_sym(c) for c in cs): raise Unsupported('find_first_not_of over symbolic bytes')
+        if (b[i] & 0xff) not in [c & 0xff for c in cs]: return i
+    return (1 << 64) - 1
+def m_s_resize_c(it, a):
+    this, n, c = a; b = sget(it, this)
+    sset(it, this, b[:n] if n <= len(b) else b + [c & 0xff] * (n - len(b))); return None
 def hashing():
     return {'@_ZSt11_Hash_bytesPKvmm': m_hash_bytes, '@_ZNKSt8__detail20_Prime_rehash_policy14_M_need_rehashEmmm': m_need_rehash,
             '@_ZNKSt8__detail20_Prime_rehash_policy11_M_next_bktEm': m_next_bkt,
             're:^@_ZNSt7__cxx1112basic_stringIcSt11char_traitsIcESaIcEE4swapERS4_': m_s_swap,
-            're:^@_ZNSt8__detail15_List_node_base11_M_transferEPS0_S1_': m_l_transfer}
+            're:^@_ZNSt8__detail15_List_node_base11_M_transferEPS0_S1_': m_l_transfer,
+            '@_ZNSt7__cxx1112basic_stringIcSt11char_traitsIcESaIcEEC1ERKS4_': m_s_copy_ctor, '@_ZNSt7__cxx1112basic_stringIcSt11char_traitsIcESaIcEEC2ERKS4_': m_s_copy_ctor,
+            're:^@_ZNSt7__cxx1112basic_stringIcSt11char_traitsIcESaIcEED[12]Ev': m_s_dtor,
+            '@_ZNKSt7__cxx1112basic_stringIcSt11char_traitsIcESaIcEE6substrEmm': m_s_substr,
+            '@_ZNKSt7__cxx1112basic_stringIcSt11char_traitsIcESaIcEE17find_first_not_ofEPKcmm': m_s_find_first_not_of,
+            '@_ZNSt7__cxx1112basic_stringIcSt11char_traitsIcESaIcEE6resizeEmc': m_s_resize_c}
 
 def all_models():
     M = base(); M.update(strings()); M.update(lists()); M.update(trees()); M.update(sinks()); M.update(hashing()); return M
